@@ -445,7 +445,7 @@ def run_hist(ctx, h, m):
     cases = load_hist_corpus(os.path.join(vlib.ROOT, "corpus", "C02.subhist.txt"))
     ncorpus = len(cases)
     dist = {}
-    for n in range(ctx.n(16, 2500)):
+    for n in range(ctx.n(16, 150)):
         g = Gen(rng)
         tb = g.tables()
         qs = g.questions(tb)
@@ -799,7 +799,7 @@ def run_ifc(ctx, elk, h, m):
     ncorpus = len(progs)
     dist = {}
     raw = []
-    for n in range(ctx.n(10, 1500)):
+    for n in range(ctx.n(10, 100)):
         g = Gen(rng)
         tb = g.tables()
         ws, cands = gen_prog(g, tb)
@@ -1151,7 +1151,7 @@ def run_rec(ctx, elk, m):
                                            (x[7][0], int(x[7][1])))))
     ncorpus = len(cases)
     dist = {}
-    for n in range(ctx.n(5, 600)):
+    for n in range(ctx.n(5, 40)):
         g = Gen(rng)
         cases.append(("rg%d" % n, gen_rec(g)))
         for k, v in g.dist.items():
